@@ -132,7 +132,7 @@ def check(ctx):
     ctx.samples = [[l if not l.startswith("script ") else "script m <hex> ## " + l.split("## ", 1)[1] for l in sample],
                    schedgen.gen_vars_case(ctx.rng("sample2"))[1].split("\n")[:25]]
     cov = {"evaluations": d.cases + runs, "distinct_nontrivial": len(d.distinct) + cases,
-           "rule": "(a) multi-thread programs (timed waits, thread, waitthread, pause) started without host Event, random frame schedules, one save;load inserted at a random boundary, compared with the machine executing load(save s); a fixed family and random programs whose callers are suspended in the MIDDLE OF AN EXPRESSION at the save point (`100 + (waitthread l)`, `local.r = waitthread l`, array element, level variable, nested and concurrent callers; the callee sleeps across the save; the result is printed as a marker), the fixed family with save;load at EVERY boundary; (b) the same programs, free-text scripts using pending results as call arguments / in string, array, vector, comparison expressions / in if, while, switch heads, and programs holding locals of every archivable kind (ints incl. >2^32, strings, float, NIL, vector, char, arrays, nested arrays, shared arrays, const arrays, listener reference, group variable) mutated and printed after waits: engine with save;load at EVERY boundary vs uninterrupted engine; non-trivial = program prints after the save point; distinct by SHA-1",
+           "rule": "(a) multi-thread programs (timed waits, thread, waitthread, pause) started without host Event, random frame schedules, one save;load inserted at a random boundary, compared with the machine executing load(save s); a fixed family and random programs whose callers are suspended in the MIDDLE OF AN EXPRESSION at the save point (`100 + (waitthread l)`, `local.r = waitthread l`, array element, level variable, nested and concurrent callers; the callee sleeps across the save; the result is printed as a marker), the fixed family with save;load at EVERY boundary; (b) the same programs, free-text scripts using pending results as call arguments / in string, array, vector, comparison expressions / in if, while, switch heads, free-text scripts whose threads sleep (wait, waitthread, waittill, inside a catch handler) within try blocks while watchdog threads `throw` / `delaythrow` catch labels into them at several delays (so that for some save points the throw reaches a restored thread before it has run again), and programs holding locals of every archivable kind (ints incl. >2^32, strings, float, NIL, vector, char, arrays, nested arrays, shared arrays, const arrays, listener reference, group variable) mutated and printed after waits: engine with save;load at EVERY boundary vs uninterrupted engine; non-trivial = program prints after the save point; distinct by SHA-1",
            "ab_programs": cases, "ab_runs": runs, "op_histogram": d.hist, "exhaustive": False, "skipped_after_failures": d.skipped}
     return common.finish(ctx, "proof", cov, TRUSTED, ASSUME,
                          "cd lean && lake build && #print axioms audit; python3 tools/check.py C09")
